@@ -12,6 +12,10 @@ CHECKS = {
    technique="bounded-exhaustive input enumeration against a reference model (explicit enumeration, no sampling)",
    text="Every value of the 8/16-bit widths, the 2^24 low range and every value within 3 of every power of two for 32/64 bit, every byte string of length <= 3 and every string of length 4..10 over {00,01,7f,80,ff}, and every boundary length prefix are run through the real Pack/Unpack/GetNextBlock/EncodedSize and compared with an independently written textbook base-128 codec. Exhaustive within these finite domains, which contain every branch boundary of the code (7-bit groups, width limits, int conversion of lengths).",
    note="Trusted: the 40-line reference codec in h/c10; values outside the enumerated domains (the interior of 7-bit groups above 2^24) are covered only through their boundary neighbours."),
+ "C16": dict(engine="Q", category="model_checking", design_ref="DESIGN.md §3, §6 C16",
+   technique="explicit-state breadth-first search over operation histories of the real container with state de-duplication, each step compared with a reference byte queue",
+   text="Breadth-first search over all operation histories up to depth 4 (quick) / 5 (thorough) from 6 initial containers over an alphabet of 106 operations (every exported data operation with forced-collision arguments: nil/empty/1B/3B data, requested lengths -1,0,1,2,len,len+1,2^62, numbers at the varint and int boundaries up to 2^64-1, partially consumed and prepended argument containers). Every history is replayed on a fresh real container and on a plain []byte queue; every result, Length, HoldsData and the content of a carbon copy are compared after every history; states are de-duplicated on the private representation (offset, compartment length vector) plus content, so all reachable internal layouts within the bound are visited.",
+   note="Trusted: the []byte reference model in h/c16 (a negative requested length may be refused or return nothing; GetNextBlock is defined as GetNextN64 followed by Get). Histories longer than the depth bound and data values outside the alphabet are not covered; the container code never branches on payload bytes except through varint decoding, whose boundaries are in the alphabet."),
 }
 
 NOT_BUILT_REASON = "check not built yet (work in progress; planned, see DESIGN.md section 6)"
